@@ -13,8 +13,9 @@ ASSUME = [
     "w.returned, w.exit; gates at r.took / r.filled / w.recv / w.wrote replay model interleavings; half frames are "
     "controlled by what the harness writes to the socket",
     "the real pool has 256 buffers; model schedules (Pool 1..3) are feasible for any larger pool",
-    "writer completion is taken from the w.exit hook, not from timing; file rotation (1 minute constant) is covered by "
-    "the design model only",
+    "writer completion is taken from the w.exit hook, not from timing; file rotation is exercised by shortening the "
+    "one-minute interval through the verif hook verifRotateEvery (files are named with 1 s resolution, so rotations within "
+    "one second reopen and truncate the same file: only the frames after the last rotation in that second can be on disk)",
     "data races: the Go race detector on a -race build of the same driver (free-running schedules)",
 ]
 
@@ -68,6 +69,11 @@ def run(ctx):
     # ---- constructed extremes and free-running stress
     scripts.append(dict(framesize=2000, nframes=600, cut_last=False, chunks=[], mode="backlog"))         # 256 in flight, reader blocks, drain
     scripts.append(dict(framesize=100, nframes=300, cut_last=True, chunks=[7], mode="backlog"))           # EOF with a full queue
+    for fs, nf in [(10, 5), (600, 9), (4096, 3), (39040, 2)]:      # header and frames in one segment
+        scripts.append(dict(framesize=fs, nframes=nf, cut_last=(fs == 600), chunks=[], mode="free", coalesce=True))
+    # file rotation mid-stream; files are named with 1 s resolution, so the shortened interval stays above one second
+    for (fs, nf, rot, pause) in ([(100, 110, 1100, 20000)] if tier == "quick" else [(100, 110, 1100, 20000), (5000, 60, 1300, 50000), (10, 400, 1050, 8000)]):
+        scripts.append(dict(framesize=fs, nframes=nf, cut_last=(nf == 60), chunks=[], mode="free", rotate_ms=rot, pause_us=pause))
     nfree = 12 if tier == "quick" else 150
     for i in range(nfree):
         scripts.append(dict(framesize=rng.choice([10, 11, 1000, 38400, 39040, 650000 if i % 6 == 0 else 4096]),
